@@ -18,10 +18,12 @@ CLAUSES = {
     # "the group's remaining tasks are cancelled": the level-triggered clauses evaluated on group members
     "C02": {"NoneDropped", "NoneInvented", "NoDuplicates", "NoCancelLeaves", "NoErrorNoRaise",
             "ErrorsRaiseGroup", "CancelOnlyPassesThrough", "EveryCheckpointRaises",
-            "NothingBlockedInCancelledScope", "InterruptedWithinBoundedCycles"},
+            "NothingBlockedInCancelledScope", "InterruptedWithinBoundedCycles",
+            "StartErrorLostOnNativeCancelOfCaller"},
     "C07": {"ReturnsStartedValue", "ChildErrorToCaller", "EarlyFailureReported",
             "ChildDoneBeforeCancelledStartReturns", "GroupNotCancelledByStartFailure",
-            "FirstStartedAccepted", "SecondStartedIsError"},
+            "FirstStartedAccepted", "SecondStartedIsError", "NoneDropped", "NoDuplicates",
+            "StartErrorLostOnNativeCancelOfCaller"},
 }
 INV = ["PropertyHolds", "JoinInv", "TasksSetExact", "QuiescentNotStuck", "Residue"]
 
